@@ -1,0 +1,264 @@
+//! Verification hooks. Only compiled with `--cfg gluon_verif`; with the flag off none of this
+//! exists. All state is thread local (an explorer drives one VM per OS thread) except for the
+//! ids of garbage collectors which are process unique.
+//!
+//! The hooks observe and, for `force_collect` and the quarantine, select among behaviours the
+//! VM already has (a collection may happen at any `check_collect`, a freed block may stay
+//! unused): they never add behaviour.
+use std::cell::RefCell;
+use std::collections::{BTreeSet, HashMap, HashSet};
+use std::sync::atomic::{AtomicU64, Ordering};
+
+static NEXT_GC_ID: AtomicU64 = AtomicU64::new(1);
+
+#[derive(Default)]
+pub struct State {
+    /// Master switch, everything below is ignored while false
+    pub enabled: bool,
+
+    // ---- heap ownership
+    pub pending_parent: Option<u64>,
+    /// gc id -> parent gc id
+    pub parents: HashMap<u64, u64>,
+    /// header address -> owning gc id (of objects allocated while enabled)
+    pub owner: HashMap<usize, u64>,
+
+    // ---- freed objects
+    /// Do not deallocate swept objects: run their drop glue, poison the payload and keep the
+    /// block forever so that any later use is detectable and addresses are never reused
+    pub quarantine: bool,
+    pub freed: HashSet<usize>,
+    pub freed_bytes: usize,
+
+    // ---- forced collections
+    /// number of `check_collect` calls seen
+    pub check_collect_calls: u64,
+    /// force a collection at exactly these call indices (0-based)
+    pub force_at: BTreeSet<u64>,
+    /// force a collection at every k-th call (0 = never)
+    pub force_every: u64,
+    pub forced: u64,
+
+    // ---- tracing
+    pub trace_stack: Vec<usize>,
+    pub edges_checked: u64,
+
+    // ---- limits
+    /// an allocation through the limit-checked path is in progress
+    pub checked_alloc: bool,
+    /// largest `allocated - limit` seen right after a limit-checked allocation (0 if never above)
+    pub max_over_limit: usize,
+    pub checked_allocs: u64,
+    pub peak_allocated: usize,
+    /// largest absolute value-stack length seen at an instruction
+    pub peak_stack: usize,
+    /// instructions executed
+    pub instructions: u64,
+    /// number of instructions at which the frame used more slots than the function declared
+    pub frame_overflows: u64,
+
+    /// Everything the hooks found wrong (the harness decides what to do with it)
+    pub violations: Vec<String>,
+}
+
+thread_local! {
+    pub static STATE: RefCell<State> = RefCell::new(State::default());
+}
+
+pub fn with<R>(f: impl FnOnce(&mut State) -> R) -> R {
+    STATE.with(|s| f(&mut s.borrow_mut()))
+}
+
+/// Resets the state and enables the hooks
+pub fn reset(enabled: bool) {
+    with(|s| {
+        *s = State::default();
+        s.enabled = enabled;
+    })
+}
+
+pub fn next_gc_id() -> u64 {
+    let id = NEXT_GC_ID.fetch_add(1, Ordering::Relaxed);
+    // try_with: collectors are also created and dropped during thread teardown
+    let _ = STATE.try_with(|s| {
+        if let Ok(mut s) = s.try_borrow_mut() {
+            if let Some(parent) = s.pending_parent.take() {
+                if s.enabled {
+                    s.parents.insert(id, parent);
+                }
+            }
+        }
+    });
+    id
+}
+
+pub fn set_next_parent(parent: u64) {
+    let _ = STATE.try_with(|s| {
+        if let Ok(mut s) = s.try_borrow_mut() {
+            s.pending_parent = Some(parent);
+        }
+    });
+}
+
+fn is_ancestor_or_self(s: &State, ancestor: u64, mut gc: u64) -> bool {
+    loop {
+        if gc == ancestor {
+            return true;
+        }
+        match s.parents.get(&gc) {
+            Some(p) => gc = *p,
+            None => return false,
+        }
+    }
+}
+
+pub fn note_checked_alloc() {
+    let _ = STATE.try_with(|s| {
+        if let Ok(mut s) = s.try_borrow_mut() {
+            if s.enabled {
+                s.checked_alloc = true;
+            }
+        }
+    });
+}
+
+pub fn on_alloc(gc_id: u64, header: usize, allocated: usize, limit: usize) {
+    let _ = STATE.try_with(|s| {
+        if let Ok(mut s) = s.try_borrow_mut() {
+            if !s.enabled {
+                return;
+            }
+            s.owner.insert(header, gc_id);
+            if allocated > s.peak_allocated {
+                s.peak_allocated = allocated;
+            }
+            if s.checked_alloc {
+                s.checked_alloc = false;
+                s.checked_allocs += 1;
+                if allocated > limit && allocated - limit > s.max_over_limit {
+                    s.max_over_limit = allocated - limit;
+                }
+            }
+        }
+    });
+}
+
+/// Should `check_collect` run a collection now?
+pub fn force_collect() -> bool {
+    STATE
+        .try_with(|s| {
+            if let Ok(mut s) = s.try_borrow_mut() {
+                if !s.enabled {
+                    return false;
+                }
+                let i = s.check_collect_calls;
+                s.check_collect_calls += 1;
+                let force =
+                    s.force_at.contains(&i) || (s.force_every != 0 && (i + 1) % s.force_every == 0);
+                if force {
+                    s.forced += 1;
+                }
+                force
+            } else {
+                false
+            }
+        })
+        .unwrap_or(false)
+}
+
+/// Returns true if the block should be quarantined instead of deallocated
+pub fn on_free(header: usize, size: usize) -> bool {
+    STATE
+        .try_with(|s| {
+            if let Ok(mut s) = s.try_borrow_mut() {
+                if s.enabled && s.quarantine {
+                    s.freed.insert(header);
+                    s.freed_bytes += size;
+                    return true;
+                }
+            }
+            false
+        })
+        .unwrap_or(false)
+}
+
+/// A collection of `gc_id` reached the object at `header` (from the object on top of the trace
+/// stack or from a root)
+pub fn on_reach(gc_id: u64, header: usize) {
+    let _ = STATE.try_with(|s| {
+        if let Ok(mut s) = s.try_borrow_mut() {
+            if !s.enabled {
+                return;
+            }
+            if s.freed.contains(&header) {
+                let from = s.trace_stack.last().cloned();
+                s.violations.push(format!(
+                    "freed-but-reachable: collection of heap {} reached freed object {:#x} (from {:?})",
+                    gc_id, header, from
+                ));
+                return;
+            }
+            s.edges_checked += 1;
+            let child_owner = match s.owner.get(&header) {
+                Some(o) => *o,
+                None => return,
+            };
+            if let Some(parent) = s.trace_stack.last() {
+                if let Some(parent_owner) = s.owner.get(parent).cloned() {
+                    if !is_ancestor_or_self(&s, child_owner, parent_owner) {
+                        s.violations.push(format!(
+                            "heap-isolation: object in heap {} points into heap {} which is neither it nor one of its ancestors",
+                            parent_owner, child_owner
+                        ));
+                    }
+                }
+            }
+        }
+    });
+}
+
+pub struct TraceGuard(bool);
+
+pub fn enter(header: usize) -> TraceGuard {
+    let pushed = STATE
+        .try_with(|s| {
+            if let Ok(mut s) = s.try_borrow_mut() {
+                if s.enabled {
+                    s.trace_stack.push(header);
+                    return true;
+                }
+            }
+            false
+        })
+        .unwrap_or(false);
+    TraceGuard(pushed)
+}
+
+impl Drop for TraceGuard {
+    fn drop(&mut self) {
+        if self.0 {
+            let _ = STATE.try_with(|s| {
+                if let Ok(mut s) = s.try_borrow_mut() {
+                    s.trace_stack.pop();
+                }
+            });
+        }
+    }
+}
+
+pub fn on_instr(frame_len: usize, max_stack_size: usize, abs_len: usize) {
+    let _ = STATE.try_with(|s| {
+        if let Ok(mut s) = s.try_borrow_mut() {
+            if !s.enabled {
+                return;
+            }
+            s.instructions += 1;
+            if abs_len > s.peak_stack {
+                s.peak_stack = abs_len;
+            }
+            if frame_len > max_stack_size {
+                s.frame_overflows += 1;
+            }
+        }
+    });
+}
